@@ -90,9 +90,32 @@ def _check_reports(vs, who, got, finals, flushed):
         vs.append(V("report-content", who + "-incomplete", "incomplete reports %r, model expects %r" % (rest, want_x)))
 
 
+def _enum_long():
+    for n in (1, 63, 64, 65, 66, 130):
+        for two in (False, True):
+            evs = []
+            for k in range(n):
+                evs.append(dict(test_id="a", route_code=None, test_status=None, test_tags=None, runnable=True, timestamp=1,
+                                file_name="f", file_bytes=b"%d," % k, eof=False, mime_type="text/plain"))
+                if two:
+                    evs.append(dict(test_id="b", route_code="0", test_status="inprogress", test_tags=None, runnable=True, timestamp=1,
+                                    file_name="g", file_bytes=b"x", eof=False, mime_type=None))
+            evs.append(dict(test_id="a", route_code=None, test_status="fail", test_tags=None, runnable=True, timestamp=2,
+                            file_name=None, file_bytes=None, eof=False, mime_type=None))
+            yield {"events": evs}
+
+
+def send(result, ev, npos):
+    """One status() call, the first ``npos`` parameters positionally (documented parameter order)."""
+    kw = streams.kwargs_of(ev)
+    args = [kw.pop(f) for f in streams.FIELDS[:npos]]
+    result.status(*args, **kw)
+
+
 def run_case(spec):
     from testtools.testresult.real import StreamToDict, StreamSummary, StreamToExtendedDecorator
     events = spec["events"]
+    npos = list(spec.get("npos", [])) + [0] * len(events)
     finals, flushed = reference(events)
     vs = []
 
@@ -107,8 +130,8 @@ def run_case(spec):
     s2d = StreamToDict(on_test)
     s2d.startTestRun()
     n_before_stop = None
-    for ev in events:
-        s2d.status(**streams.kwargs_of(ev))
+    for ev, n in zip(events, npos):
+        send(s2d, ev, n)
     n_before_stop = len(reports)
     s2d.stopTestRun()
     if n_before_stop != len(finals):
@@ -125,8 +148,8 @@ def run_case(spec):
     # ---- StreamSummary
     summ = StreamSummary()
     summ.startTestRun()
-    for ev in events:
-        summ.status(**streams.kwargs_of(ev))
+    for ev, n in zip(events, npos):
+        send(summ, ev, n)
     summ.stopTestRun()
     allrecs = finals + flushed
     counted = [r for r in allrecs if r["status"] != "exists"]
@@ -159,8 +182,8 @@ def run_case(spec):
     ext = Ext()
     s2e = StreamToExtendedDecorator(ext)
     s2e.startTestRun()
-    for ev in events:
-        s2e.status(**streams.kwargs_of(ev))
+    for ev, n in zip(events, npos):
+        send(s2e, ev, n)
     n_out_before = len([e for e in ext.events if e[0].startswith("add")])
     s2e.stopTestRun()
     f2, x2 = reference([e for e in events if e["test_status"] != "exists"])
@@ -250,7 +273,8 @@ def run_case(spec):
     return Case(vs, nt, [l for l in labels if l], {"reports": [r[0][:2] for r in reports]})
 
 
-EVENTS = st.lists(streams.event(), max_size=25)
+EVENTS = st.lists(streams.event(ids=(None, "a", "b", "c", "0/a", "")), max_size=25)
+NPOS = st.lists(st.integers(0, 10), max_size=25)
 
 
 def _enum(maxlen):
@@ -297,7 +321,9 @@ def subchecks(tier):
     gen, k = _enum(2 if q else 3)
     gen4, k4 = _enum4()
     return [
-        Sub("random_streams", run_case, st.fixed_dictionaries({"events": EVENTS}), 1200 if q else 150000),
+        Sub("random_streams", run_case, st.fixed_dictionaries({"events": EVENTS, "npos": NPOS}), 1200 if q else 150000),
+        Sub("long_attachments", run_case, enum=_enum_long, enum_complete=True,
+            note="one or two tests with 1, 63, 64, 65, 66, 130 chunks of one attachment"),
         Sub("enumerated_streams", run_case, enum=gen, enum_complete=True,
             note="every sequence of length <= %d over a %d-symbol alphabet" % (2 if q else 3, k)),
     ] + ([] if q else [
